@@ -1,4 +1,19 @@
 TEXTS = {
+    "C11": {
+        "text": "Machine-checked Lean 4 theorem C11_holds (no wiring hypothesis): every run of the actor model - all "
+                "timeout values and handler durations on the virtual clock, any message sequence with further messages "
+                "queued behind the slow one, fail_on_timeout on or off, both mailbox kinds, plain or stream-attached - "
+                "is accepted by monC11: an invocation is abandoned only if a timeout t is configured (never on "
+                "stream-attached actors), only handler invocations are, never before begin + t; an abandoned "
+                "invocation produces no further context effects; with fail_on_timeout no callback ever begins again; "
+                "without a configured timeout nothing is ever abandoned. The deadline lives in the loop model "
+                "(timeout_fut) and is tied to the code by acceptance of real traces in which the harness's "
+                "futures-timer Delay runs on the virtual clock.",
+        "design_ref": "DESIGN.md §5 C11",
+        "note": "Partial: the prompt-schedule clauses and 'caller receives an error' (monC11p) are trace-checked, not "
+                "proved. Trusted: Lean kernel + axioms; virtual time in place of futures-timer; select! tie at d = t excluded.",
+        "technique": "Lean 4 proof (deadline/phase coupling by exhaustive step case analysis) + checked trace correspondence",
+    },
     "C04": {
         "text": "Machine-checked Lean 4 theorem C04_holds: for every wiring whose loop notifies after stopped(), every "
                 "run of the actor model is accepted by monC04 (announcement): awaiting any clone of the address, "
@@ -152,6 +167,6 @@ TEXTS = {
 _PENDING = "check under construction in this round: model + theorem not yet wired into ./check (see DESIGN.md build order); not claimed until its three obligations run end to end"
 NOT_APPLICABLE = [
     {"property_id": p, "reason": _PENDING}
-    for p in ["C01", "C02", "C05", "C06", "C08", "C09", "C10", "C11",
+    for p in ["C01", "C02", "C05", "C06", "C08", "C09", "C10",
               "C16"]
 ]
